@@ -30,7 +30,7 @@ TEXT = {
     },
     'C06': {
         'text': 'Key generation and evaluation from the root, every tree depth; caches excluded. Verus proves on the extracted generate_correction_word and eval_next (abstract seeds with xor, XOF expansion uninterpreted, values in the abstract field) that they compute the specified construction and, as a theorem over the two contracts, that on the input path the parties keep differing control bits and their shares sum to the programmed value, that leaving the path makes keys and control bits equal with shares summing to zero, and that off the path this is preserved; Idpf::gen_with_random and Idpf::eval_from_node (whole functions, level loops included) are proved to iterate exactly that construction, and theorem_idpf_end_to_end composes them: for every depth, input, value vector and prefix the shares sum to the programmed value on the path and to zero off it. Kani proves the seed helpers, the value select/negate contracts and the off-path step on the compiled code (all seeds/bits/values symbolic).',
-        'note': 'NOT decided: Idpf::eval resuming from a cached node (cache transparency; bitvec normalisation: a change to NormalizedBitVec is not detected), bitvec storage of IdpfInput, the public-share codec; inner and leaf values are modelled as one abstract field type.',
+        'note': 'Cache keys: NormalizedBitVec is proved canonical with key equality == equality of the bit sequences under ASSUMED contracts for bitvec storage (unit norm_bitvec, with an executable contract on the real caches). NOT decided: that Idpf::eval resumes correctly from a cached node (lookup loop and eviction are not under contract), bitvec storage of IdpfInput, the public-share codec; inner and leaf values are modelled as one abstract field type.',
         'technique': 'function contracts against spec functions + a level theorem over the contracts on extracted real code (Verus); function contracts on compiled code with uninterpreted XOF expansion (Kani/CBMC)',
         'design_ref': 'DESIGN.md §4 C06',
     },
